@@ -345,12 +345,15 @@ func ClassifyErr(v ssa.Value, at ssa.Instruction) ErrClass {
 			}
 		case *ssa.Phi:
 			c := rec(x.Edges[0])
+			same := true
 			for _, e := range x.Edges[1:] {
 				if rec(e) != c {
-					return ErrMaybe
+					same = false
 				}
 			}
-			return c
+			if same && c != ErrMaybe {
+				return c
+			}
 		case *ssa.Call:
 			switch CallID(x) {
 			case "github.com/pkg/errors.New", "errors.New", "fmt.Errorf", "github.com/pkg/errors.Errorf":
